@@ -287,9 +287,89 @@ def gradmode_replay(ctx, budget, rng):
                 ctx.violation("jacgradmode/%s/%s/%s" % (which, acts[0], p), "%s operator, %s: %s" % (which, acts, why), {"which": which, "actions": acts})
     return len(nodes), n, len(seqs)
 
+class AddObj(EditableModule):
+    """a function with an additive object-held tensor: its Jacobian / Hessian does not depend on `bias`"""
+
+    def __init__(self, A, bias):
+        self.A = A
+        self.bias = bias
+
+    def f(self, y, th, shift):
+        return torch.tanh(self.A @ y) * th + y ** 2 + self.bias + shift
+
+    def g(self, y, th, shift):
+        return (torch.tanh(self.A @ y) * th).sum() + (y ** 3).sum() + self.bias.sum() + shift.sum()
+
+    def getparamnames(self, methodname, prefix=""):
+        return [prefix + "A", prefix + "bias"]
+
+
+class AddNN(torch.nn.Module):
+    def __init__(self, A, bias):
+        super().__init__()
+        self.A = torch.nn.Parameter(A)
+        self.bias = torch.nn.Parameter(bias)
+
+    def forward(self, y, th, shift):
+        return torch.tanh(self.A @ y) * th + y ** 2 + self.bias + shift
+
+    def g(self, y, th, shift):
+        return (torch.tanh(self.A @ y) * th).sum() + (y ** 3).sum() + self.bias.sum() + shift.sum()
+
+
+def additive_rows(ctx):
+    """parameters the Jacobian / Hessian does not depend on (an additive tensor held by the function's object, an additive explicit
+    argument): the operator is a function of ALL its declared parameters, so every product must be differentiable w.r.t. them in the
+    same way - whatever mv supports (a zero gradient without allow_unused), rmv / mm / rmm / fullmatrix / .H products support too"""
+    n = 0
+    g = torch.Generator().manual_seed(3)
+    for kind in ("edit", "nn"):
+        for which in ("jac", "hess"):
+            A = torch.randn(2, 2, generator=g, dtype=DT).requires_grad_()
+            bias = torch.randn(2, generator=g, dtype=DT).requires_grad_()
+            th = torch.randn(2, generator=g, dtype=DT).requires_grad_()
+            shift = torch.randn(2, generator=g, dtype=DT).requires_grad_()
+            y = torch.randn(2, generator=g, dtype=DT).requires_grad_()
+            if kind == "edit":
+                obj = AddObj(A, bias)
+                fn = obj.f if which == "jac" else obj.g
+                held = bias
+            else:
+                obj = AddNN(A.detach().clone(), bias.detach().clone())
+                fn = obj.forward if which == "jac" else obj.g
+                held = obj.bias
+            x = torch.tensor([0.7, -1.3], dtype=DT)
+            X = torch.tensor([[0.7, 0.2, 1.0], [-1.3, 0.5, 0.0]], dtype=DT)
+            prods = {"mv": lambda o: o.mv(x), "rmv": lambda o: o.rmv(x), "mm": lambda o: o.mm(X), "rmm": lambda o: o.rmm(X), "fm": lambda o: o.fullmatrix(),
+                     "H.mv": lambda o: o.H.mv(x), "H.fm": lambda o: o.H.fullmatrix()}
+            outcome = {}
+            for pname, call in prods.items():
+                n += 1
+                ctx.case(key=("additive", kind, which, pname))
+                res = {}
+                for tname, tens in (("object-held", held), ("explicit", shift)):
+                    try:
+                        op = (xitorch.grad.jac if which == "jac" else xitorch.grad.hess)(fn, (y, th, shift), idxs=0)
+                        val = call(op)
+                        gr, = torch.autograd.grad(val.sum(), [tens])
+                        res[tname] = "zero" if float(gr.abs().max()) == 0.0 else "nonzero %.2e" % float(gr.abs().max())
+                    except Exception as e:
+                        res[tname] = "raises %s" % type(e).__name__
+                outcome[pname] = res
+            for pname, res in outcome.items():
+                for tname in res:
+                    if res[tname].startswith("nonzero"):
+                        ctx.violation("jac/additive/%s/%s" % (which, pname), "%s operator of a %s method: derivative of the %s product w.r.t. an additive %s tensor is %s"
+                                      % (which, kind, pname, tname, res[tname]), {"kind": kind, "which": which, "product": pname})
+                    elif res[tname] != outcome["mv"][tname]:
+                        ctx.violation("jac/additive/%s/%s" % (which, pname), "%s operator of a %s method: differentiating the %s product w.r.t. an additive %s tensor %s, the mv product %s"
+                                      % (which, kind, pname, tname, res[tname], outcome["mv"][tname]), {"kind": kind, "which": which, "product": pname})
+    return n
+
+
 # ------------------------------------------------------------------ case table
 def table(ctx, thorough):
-    n = 0
+    n = additive_rows(ctx)
     W, c0 = base_tensors(ctx.seed)
     nn_ = W.shape[0]
     kinds = ["pure", "nn", "edit", "mixed", "sib", "msib", "msib3", "editnn"]
